@@ -546,6 +546,9 @@ class Point:
                 return (int(bool(r)), 0)
         # decide the comparison with the Legendre character as the sign of (a - b)
         a = memo_get(self, x.args[0]); b = memo_get(self, x.args[1])
+        if x.val in ('==', '!='):
+            same_ = (a[0] - b[0]) % P == 0 and (a[1] - b[1]) % P == 0          # equality is defined for complex values too
+            return (int(same_ if x.val == '==' else not same_), 0)
         if a[1] != 0 or b[1] != 0:
             raise AnalysisError('comparison of complex values')
         d = (a[0] - b[0]) % P
@@ -600,7 +603,12 @@ class Point:
             return (pow(a[0], (2 * P - 1) // 3, P), 0)
         if name == 'abs':
             if a[1] != 0:
-                raise AnalysisError('abs of a non-real value: use abs2/sqrt explicitly')
+                # |z| = sqrt(re^2 + im^2): the positive root of a positive real quantity (a quadratic residue at the sample point, else another point is drawn)
+                n2 = (a[0] * a[0] + a[1] * a[1]) % P
+                if legendre(n2) != 1:
+                    raise Resample()
+                r_ = pow(n2, (P + 1) // 4, P)
+                return (r_ if legendre(r_) == 1 else (-r_) % P, 0)
             return (a[0] * legendre(a[0]) % P, 0)
         if name == 'sign':
             if a[1] != 0:
